@@ -4,6 +4,7 @@
 //!   vh record <prop> <seed> <n> <trace.ndjson>         direction V (implementation -> spec)
 mod c01;
 mod c02;
+mod c03;
 mod c04;
 mod c06;
 mod c08;
@@ -38,6 +39,7 @@ fn main() {
       match args[2].as_str() {
         "C01" => c01::replay(&cases, &mut rep),
         "C02" => c02::replay(&cases, &mut rep),
+        "C03" => c03::replay(&cases, &mut rep),
         "C04" => c04::replay(&cases, &mut rep),
         "C06" => c06::replay(&cases, &mut rep),
         "C08" => c08::replay(&cases, &mut rep),
